@@ -22,6 +22,9 @@ def classify(kf, rec) -> bool:
     return False
 
 
+DELIM_LIKE = ["|---|---|", "-----", "title: a --- b", "x---", "---x", "--- x", "----", "...", "# Title", "| a | b |", "text --- more --- text", "--", "- ---", "> ---"]
+
+
 def gen_fm_line(rng, exotic_p=0.15) -> str:
     n = rng.choice([0, 1, 3, 6, 12])
     s = ""
@@ -40,6 +43,10 @@ def gen_case(rng):
     blanks = [rng.choice(["", " ", "\t"]) for _ in range(nblank)]
     exotic_p = rng.choice([0.0, 0.0, 0.0, 0.2])
     lines = [gen_fm_line(rng, exotic_p) for _ in range(rng.randint(0, 6))]
+    # lines that contain the delimiter text without being a delimiter line, YAML document markers, Markdown-looking lines
+    if rng.random() < 0.5:
+        for _ in range(rng.randint(1, 3)):
+            lines.insert(rng.randint(0, len(lines)), rng.choice(DELIM_LIKE))
     open_l = rng.choice(["---", "---", "--- ", " ---"])
     close_l = rng.choice(["---", "---", "---  "])
     eol = "\r\n" if rng.random() < 0.15 else "\n"
